@@ -314,6 +314,15 @@ def cases():
         for init in ('A', 'B'):
             out.append(dict(label='flow:entry-%s:init%s' % (lab, init), confs=S.base_confs(a_entry=ea, b_entry=eb),
                             ops=('rekeyChildB', 'rekeyChildA', 'new' + init), initiator=init))
+    # (b') the responder listens on two addresses and has a connection for the same peer (same identities and keys) on
+    # each of them; the initiator talks to the first: the SAs are between the addresses the datagrams travel between
+    B2 = '192.168.0.12'
+    for mode, nets in (('tunnel', dict(my_subnet='10.1.0.0/24', peer_subnet='10.2.0.0/24')), ('transport', {})):
+        c = S.base_confs(a_entry=dict(mode=mode, **nets), b_entry=dict(mode=mode, **({'my_subnet': nets['peer_subnet'], 'peer_subnet': nets['my_subnet']} if nets else {})))
+        wide = dict(mode=mode, **({'my_subnet': '10.2.0.0/16', 'peer_subnet': '10.1.0.0/16'} if nets else {}))
+        c['B']['conn_b2a'] = S.conn(B2, S.IP_A, "bob@openikev2", "alice@openikev2", "testing2", "testing", [S.entry(9, **wide)])
+        out.append(dict(label='two-local-addresses:%s' % mode, confs=c, addrs={'A': [S.IP_A], 'B': [S.IP_B, B2]},
+                        ops=('newA', 'rekeyChildB')))
     # (c) histories: every sequence of operations up to length k, three ways of starting
     k = 2 if ck.quick else 3
     ke = dict(a_over={'dh': ['20', '19']}, b_over={'dh': ['19', '20']}, a_entry={'dh': ['20', '19']}, b_entry={'dh': ['19', '20']})
